@@ -35,6 +35,8 @@ ASSUMPTIONS = [
 KINDS = ["vmx", "vmx", "ovf", "vbox", "pvs"]
 FILE_NAMES = ["disk.vmdk", "Virtual Disk-cl1.vmdk", "disk-000003.vmdk", "C:\\vms\\a b\\d.vmdk", "/vmfs/volumes/ds1/vm/vm_1.vmdk", "dïsk 🦊.vmdk",
               "d=1#2.vmdk", "x.vmdk", "ide.vmdk", "scsi0.vmdk"]
+# VMX only (not all of them are XML characters): characters that some text APIs (str.splitlines) treat as line boundaries, inside a value
+VMX_FILE_NAMES = FILE_NAMES + ["Data\u2028Disk.vmdk", "a\x85b\x0cc\x1cd.vmdk", "p\u2029q\x0br.vmdk"]
 DISK_TYPES = ["scsi-hardDisk", "disk", "ide-hardDisk", "SCSI-HARDDISK", "Disk"]
 NONDISK_TYPES = ["cdrom-image", "cdrom-raw", "atapi-cdrom", "CDROM-IMAGE"]
 UNITS = {"scsi": (3, 15), "sata": (3, 29), "ide": (1, 1), "nvme": (3, 14)}
@@ -65,7 +67,7 @@ def vmx_spec(draw):
         bus = draw(st.integers(0, UNITS[cls][0]))
         unit = draw(st.one_of(st.integers(0, min(3, UNITS[cls][1])), st.integers(0, UNITS[cls][1])))
         devs[(cls, bus, unit)] = {
-            "file": draw(st.sampled_from(FILE_NAMES + [None, ""])), "type": draw(st.sampled_from(DISK_TYPES + NONDISK_TYPES + [None, None, None])),
+            "file": draw(st.sampled_from(VMX_FILE_NAMES + [None, ""])), "type": draw(st.sampled_from(DISK_TYPES + NONDISK_TYPES + [None, None, None])),
         }
     lines = []
     for (cls, bus, unit), d in devs.items():
@@ -84,7 +86,7 @@ def vmx_spec(draw):
     unrelated = [["displayName", "my vm"], [".encoding", "UTF-8"], ["ethernet0.present", "TRUE"], ["ethernet0.fileName", "none.vmdk"],
                  ["floppy0.fileName", "boot.flp"], ["usb.present", "TRUE"], ["sched.scsi0:0.shares", "normal"], ["memsize", "2048"],
                  ["guestOS", "other"], ["serial0.fileName", "serial.out"], ["nvram", "vm.nvram"], ["config.version", "8"],
-                 ["annotation", "a = b # c"], ["extendedConfigFile", "vm.vmxf"], ["sound.fileName", "-1"]]
+                 ["annotation", "a = b # c"], ["annotation", "note\u2028sata0:3.fileName = ghost.vmdk"], ["extendedConfigFile", "vm.vmxf"], ["sound.fileName", "-1"]]
     for kv in draw(st.lists(st.sampled_from(unrelated), max_size=6, unique_by=lambda x: x[0])):
         lines.append(["kv", kv[0], kv[1]])
     lines = list(draw(st.permutations(lines)))
@@ -202,6 +204,8 @@ def strategy_(draw, tier):
     spec["peek_first"] = draw(st.sampled_from([False, False, True]))
     if draw(st.integers(0, 2)) == 0:
         spec["companion"] = draw(gen)
+    # the caller's handle is closed (left its with-block) once the object is built, before anything is listed
+    spec["close_handle"] = draw(st.booleans())
     return spec
 
 
@@ -235,18 +239,18 @@ def document(spec, prolog=""):
     raise ValueError(k)
 
 
-def parse(kind, text):
+def parse(kind, text, close=False):
+    fh = io.StringIO(text)
     if kind == "ovf":
-        from dissect.hypervisor.descriptor.ovf import OVF
-
-        return OVF(io.StringIO(text))
-    if kind == "vbox":
-        from dissect.hypervisor.descriptor.vbox import VBox
-
-        return VBox(io.StringIO(text))
-    from dissect.hypervisor.descriptor.pvs import PVS
-
-    return PVS(io.StringIO(text))
+        from dissect.hypervisor.descriptor.ovf import OVF as cls
+    elif kind == "vbox":
+        from dissect.hypervisor.descriptor.vbox import VBox as cls
+    else:
+        from dissect.hypervisor.descriptor.pvs import PVS as cls
+    obj = cls(fh)
+    if close:
+        fh.close()
+    return obj
 
 
 def check(spec) -> Outcome:
@@ -301,15 +305,28 @@ def check(spec) -> Outcome:
         again, err = lib(lambda: list(v.disks()))
         if err or again != exp:
             out.fail("mismatch|vmx-disks-again", f"a later disks() call gave {again if not err else err.describe()}, expected {exp}")
+        # the caller edits the dictionary of the first object (it is theirs), then parses the same text again: the new object shows
+        # what the text says
+        lib(v.attr.clear)
+        v.attr["scsi0:0.filename"] = "edited-by-caller.vmdk"
+        v3, err = lib(VMX.parse, text)
+        if err:
+            out.fail(err.sig("vmx-parse-again"), f"VMX.parse of the same text again raised {err.describe()}")
+        else:
+            got3, err = lib(lambda: list(v3.disks()))
+            if err or got3 != exp or v3.attr != model:
+                out.fail("mismatch|vmx-parse-again", f"the same text parsed again after the caller edited the first object's attr: disks() {got3 if not err else err.describe()}, expected {exp}")
         nondisk = any(ln[0] == "kv" and ln[1].lower().endswith(".devicetype") and "disk" not in ln[2].lower() for ln in spec["lines"])
         out.nontrivial = bool(exp) and nondisk
         out.cls(f"vmx-disks={min(len(exp), 3)}")
         return out
     text, exp = document(spec)
-    obj, err = lib(parse, kind, text)
+    obj, err = lib(parse, kind, text, bool(spec.get("close_handle")))
     if err:
         out.fail(err.sig(kind + "-parse"), f"{kind} parser raised {err.describe()}")
         return out
+    if spec.get("close_handle"):
+        out.cls("handle-closed-before-listing")
     if spec.get("peek_first"):
         first, err = lib(lambda: next(iter(obj.disks()), None))
         if not err and first != (exp[0] if exp else None):
